@@ -98,7 +98,7 @@ def run(ctx):
             common = [k for k in keys1 if k in keys2]
             if common:
                 for k in common:
-                    what = ("the process aborted (std::terminate/abort) inside this nested call, again when the iteration ran alone"
+                    what = ("the process died (fatal signal / std::terminate) in the phase or nested call the key names, again when the iteration ran alone"
                             if k.startswith("C05:crash:") else
                             "a call was still blocked 15 s after teardown began (its own timeout is 60 s), again when the iteration ran alone")
                     ctx.violation(k, what, dict(desc=rr.died_scn.get("desc"), _run=run_info))
@@ -145,6 +145,7 @@ def run(ctx):
            "nested_setReadMode_from_callback_threw_logic_error", "nested_connectSync_from_callback_threw_logic_error",
            "nested_receiveSync_from_callback_threw_logic_error",
            "burst_connectSync_calls_entered_between_teardown_begin_and_stop_return", "burst_connectSync_shutting_down",
+           "connectViaListener_ok", "datagrams_from_known_peers_delivered_after_restart", "datagrams_from_raw_peers_delivered_first_start",
            "edge_callers_started", "post_unlock_holds", "edge_connectSync_returned_Timeout", "edge_connectSync_returned_ShuttingDown",
            "edge_receiveSync_returned_Timeout", "teardown_began_with_connectSync_caller_past_its_expiry_not_yet_returned",
            "teardown_began_with_receiveSync_caller_past_its_expiry_not_yet_returned"]
